@@ -67,7 +67,14 @@ class R:
         self.notes = {}
 
     def fail(self, key, msg):
-        self.findings.append({"key": str(key), "msg": str(msg)[:2000]})
+        msg = str(msg)[:2000]
+        c, depth = sys.exc_info()[1], 0
+        while c is not None and depth < 8:   # Linop.apply re-raises as RuntimeError: the original error is in the chain
+            for pat in NUMBA_TRANSIENT:
+                if pat in str(c) and pat not in msg:
+                    msg += " [cause: %s]" % pat
+            c, depth = (c.__cause__ or c.__context__), depth + 1
+        self.findings.append({"key": str(key), "msg": msg})
 
     def label(self, *names):
         for n in names:
